@@ -109,6 +109,7 @@ class Ctx:
         self.nontrivial = False
         self.sample = None
         self.notes = []
+        self.sets = {}  # name -> list of hashable reprs, united over the batch (coverage.distinct_sets)
 
     def ev(self, *rec):
         self.events.append(rec)
@@ -166,6 +167,7 @@ def _child_main(wfd, runfn, prop, tape, keep_events):
             "sample": ctx.sample,
             "nevents": len(ctx.events),
             "notes": ctx.notes,
+            "sets": ctx.sets,
         }
         if keep_events:
             res["events"] = ctx.events
@@ -292,6 +294,7 @@ def run_inproc(runfn, prop, seed=None, values=None, keep_events=False):
         "sample": ctx.sample,
         "nevents": len(ctx.events),
         "notes": ctx.notes,
+        "sets": ctx.sets,
     }
     if keep_events:
         res["events"] = ctx.events
@@ -318,6 +321,13 @@ def _run_chunk(args):
             r.pop("tape", None)
         out.append(r)
     gc.collect()
+    # unite the per-run sets of the chunk (IPC stays small)
+    united = {}
+    for r in out:
+        for k, v in (r.pop("sets", None) or {}).items():
+            united.setdefault(k, set()).update(v)
+    if out:
+        out[0]["sets"] = {k: sorted(v) for k, v in united.items()}
     return out
 
 
